@@ -15,6 +15,8 @@ ALPHA = [b"a", b"c", b"p", b"y", b"r", b"i", b"e", b"x", b"b", b"o", b"_", b"m",
          b"\"", b"'", b"`", b"/", b"*", b"#", b"$", b"?", b"!", b".", b"-", b"+", b"<", b">", b"=",
          b"&", b"^", b"|", b":", b"(", b")", b"\n", b"\r", b"\\", b" ", b"\xc3\xa9", b"\xff",
          b"\xef\xbb\xbf", b"\x00", b"~", b";", b"\xd9\xa3", b"@", b"%", b"{", b"]", b",", b"\t"]
+# medium: the quick tier of C32 (the symbols dropped are operators / letters whose cases are the same code in both scanners)
+ALPHA_MED = [a for a in ALPHA if a not in (b"b", b"o", b"_", b"8", b"<", b">", b"&", b"^", b"|", b":", b"%", b"{", b"]", b",")]
 # a smaller one for length 4 in the thorough tier
 ALPHA_SMALL = [b"a", b"c", b"r", b"i", b"e", b"x", b"_", b"0", b"1", b"\"", b"'", b"`", b"/", b"*", b"#",
                b"!", b".", b"-", b"<", b">", b"=", b"(", b")", b"\n", b"\r", b"\\", b" ", b"\xff", b"\xc3\xa9"]
@@ -161,6 +163,19 @@ class Runner:
         model = self.run_model(cases)
         self.ctx.diff_lines(name, cases, "\n".join(r for r, _ in impl), "\n".join(model))
         return impl, model
+
+
+def gen_notes(ctx):
+    """record in the evidence the sites the static generator could not read (the tables are then
+    tied to the code by the dynamic comparison only)"""
+    try:
+        g = ctx.gen_json("scantok")
+    except Exception:
+        return
+    notes = [n for pkg in g.values() for n in (pkg.get("notes") or [])]
+    if notes:
+        ctx.notes["static_gen"] = notes
+        ctx.log("static_gen notes: " + "; ".join(notes))
 
 
 def key_of(prefix, src):
